@@ -8,7 +8,9 @@
                  lie in sections of that name, in file order; every label opens a group, every sig belongs to
                  the nearest label before it; a sig with no label before it is an error.
    Nothing else contributes.  A text with a line that is none of the above, a key line outside any section,
-   an unreadable label/signature, or a sig without label denotes nothing (must be rejected).
+   a section header other than the five, a key its section does not have (anything but label/sig/sys in the
+   tcp/http sections, anything but label/sig in [mtu]), an unreadable label/signature, or a sig without label
+   denotes nothing (must be rejected).
    The reader below is independent of the nom model: lines are cut at '=' / ',' / ':' first and fields
    are read whole; tables are computed one at a time by filtering, grouping is a right fold.
    Definitions only. *)
@@ -176,8 +178,12 @@ Definition table {L S} (rdl : bytes -> option L) (rds : bytes -> option S) (item
   | (_, _ :: _) => None end.
 
 Definition is_bad (l : sline) : bool := match l with SBad => true | _ => false end.
-(* lines this specification has no opinion about: unknown sections; unknown keys inside a section *)
-Definition is_foreign (e : option sec * sline) : bool :=
+(* items the format does not have (p0f.fp: `classes` before the modules; [mtu] with label/sig; [tcp:request],
+   [tcp:response], [http:request], [http:response] with label/sys/sig, `ua_os` in the http module): a module
+   header other than these five, or a key the current module does not have.  p0f aborts on them
+   ("Unrecognized fingerprinting module", "Unrecognized field"); a text containing one is not a database.
+   (The lines below an unknown header are not looked at: the header already invalidates the text.) *)
+Definition unknown_item (e : option sec * sline) : bool :=
   match e with
   | (_, SSection SecOther) => true
   | (Some SecOther, _) => false
@@ -201,7 +207,7 @@ Definition spec_load_lines (ls : list bytes) : verdict database :=
         table spec_label spec_http (items_of SecHQ ann), table spec_label spec_http (items_of SecHS ann),
         table (fun v => Some v) rd_mtu (items_of SecMtu ann) with
   | Some tq, Some ts, Some hq, Some hs, Some mtu =>
-      if existsb is_foreign ann then VNone else
+      if existsb unknown_item ann then VErr else
       VOk {| db_classes := flat_map (fun l => match l with SClasses cs => cs | _ => [] end) sl;
              db_mtu := mtu;
              db_ua_os := flat_map (fun l => match l with SUaOs rs => rs | _ => [] end) sl;
@@ -228,4 +234,11 @@ Definition lossy_line (raw : bytes) : bool :=
                       | Some (inner, e) => beqb e "]"%byte && existsb (fun b => beqb b "]"%byte) inner
                       | None => false end
        | [] => false end.
-Definition known_db (text : bytes) : bool := existsb lossy_line (text_lines text []).
+(* ---------- known defect class (finding C06-unknown-item-skipped) ----------
+   db_parse.rs skips (warn!) a module header it does not know together with every label/sig below it, and
+   any `name = value` line whose name the current module does not have, and returns Ok: the text is loaded
+   partially instead of being rejected. *)
+Definition known_unknown_item (text : bytes) : bool :=
+  existsb unknown_item (annotate None (map (fun raw => classify (trim_ascii raw)) (text_lines text []))).
+
+Definition known_db (text : bytes) : bool := existsb lossy_line (text_lines text []) || known_unknown_item text.
